@@ -122,7 +122,7 @@ func verifC23RandomRun(res *verifkit.Result, rnd *rand.Rand, run int, allowReset
 				g := geos[wr.Intn(len(geos))]
 				total := int64(cfg.Window) * g.size
 				switch x := wr.Intn(100); {
-				case x < 70: // Get
+				case x < 66: // Get
 					a := wr.Int63n(total)
 					n := 1 + wr.Int63n(min(total-a, 2*g.size+1))
 					if wr.Intn(4) == 0 { // chunk-aligned request
@@ -151,7 +151,7 @@ func verifC23RandomRun(res *verifkit.Result, rnd *rand.Rand, run int, allowReset
 					}
 					e.get(r)
 					res.Seen(e.class(r))
-				case x < 78: // chase: invalidate what a parked loader has just read, then ask for it again
+				case x < 77: // chase: invalidate what a parked loader has just read, then ask for it again
 					e.mu.Lock()
 					var cand []*verifC23Req
 					for _, r := range e.all {
@@ -170,11 +170,51 @@ func verifC23RandomRun(res *verifkit.Result, rnd *rand.Rand, run int, allowReset
 					r := cand[wr.Intn(len(cand))]
 					n := (r.lod.ToSec - r.lod.FromSec) / r.lod.StepSec
 					e.invalidate([]int64{r.lod.FromSec + wr.Int63n(n)*r.lod.StepSec}, r.lod.StepSec)
-					if wr.Intn(2) == 0 {
+					switch wr.Intn(3) {
+					case 0:
 						// let the parked loader publish first
 						r.openGate()
 						<-r.done
 						verifC23WaitCond(2*time.Second, func() bool { return r.timing("cache-load-chunks") })
+					case 1:
+						// two loads of the same chunk in flight: a second request starts the newer load and stays in
+						// the loader, a third joins as awaiter, then the older (parked) load publishes first
+						r2 := e.newReq(r.key, 0, false, r.lod.StepSec, r.lod.FromSec, r.lod.ToSec)
+						r2.loadGate = make(chan verifC23Outcome, 1)
+						go e.get(r2)
+						verifC23WaitCond(2*time.Second, func() bool {
+							select {
+							case <-r2.entered:
+								return true
+							case <-r2.done:
+								return true
+							default:
+								return false
+							}
+						})
+						r3 := e.newReq(r.key, 0, false, r.lod.StepSec, r.lod.FromSec, r.lod.ToSec)
+						go e.get(r3)
+						w0 := e.tr.Len()
+						verifC23WaitCond(20*time.Millisecond, func() bool { // r3 began (and most likely registered)
+							select {
+							case <-r3.done:
+								return true
+							default:
+								return e.tr.Len() > w0+1
+							}
+						})
+						for i := 0; i < 20; i++ {
+							runtime.Gosched()
+						}
+						r.openGate()
+						<-r.done
+						verifC23WaitCond(2*time.Second, func() bool { return r.timing("cache-load-chunks") })
+						r2.loadGate <- verifC23Outcome{ok: wr.Intn(8) != 0}
+						<-r2.done
+						<-r3.done
+						res.Seen(e.class(r2))
+						res.Seen(e.class(r3))
+						continue
 					}
 					r2 := e.newReq(r.key, 0, false, r.lod.StepSec, r.lod.FromSec, r.lod.ToSec)
 					r2.yields = wr.Intn(3)
